@@ -336,23 +336,31 @@ class Retag:
     Floors set by the wrapped function are dropped (the attaching module sets its own)."""
 
     def __init__(self, R, fn, why=None):
-        self._R, self._fn, self._why = R, fn, why
+        import inspect
+
+        self._R, self._why = R, why
+        # fn(rule) or fn(rule, key)
+        try:
+            two = len(inspect.signature(fn).parameters) >= 2
+        except (TypeError, ValueError):
+            two = False
+        self._fn2 = fn if two else (lambda rule, key: fn(rule))
 
     def __getattr__(self, k):
         return getattr(self._R, k)
 
     def ok(self, rule, key, site, detail, nontrivial=True):
-        r = self._fn(rule)
+        r = self._fn2(rule, key)
         if r:
             self._R.ok(r, key, site, detail, nontrivial)
 
     def bad(self, rule, key, site, detail, why=""):
-        r = self._fn(rule)
+        r = self._fn2(rule, key)
         if r:
             self._R.bad(r, key, site, detail, self._why or why)
 
     def check(self, cond, rule, key, site, detail, why="", nontrivial=True):
-        r = self._fn(rule)
+        r = self._fn2(rule, key)
         if r:
             return self._R.check(cond, r, key, site, detail, self._why or why, nontrivial)
         return cond
@@ -797,3 +805,46 @@ def memo_discipline(fn: ast.AST, table: str, key: str) -> Tuple[bool, str]:
             continue
         return False, f"`{ast.unparse(r)}` returns an object that is not the table's entry"
     return True, f"returns {table}[{key}] on a hit and the stored object on a miss"
+
+
+def param_rebound(fn: ast.AST, name: str) -> List[ast.AST]:
+    """Statements of fn that bind the parameter `name` again (assignment, augmented assignment, loop target, with-as, del)."""
+    out = []
+    for n in au.walk_no_nested(fn):
+        tg = []
+        if isinstance(n, ast.Assign):
+            tg = n.targets
+        elif isinstance(n, (ast.AugAssign, ast.AnnAssign)):
+            tg = [n.target]
+        elif isinstance(n, (ast.For, ast.AsyncFor)):
+            tg = [n.target]
+        elif isinstance(n, ast.Delete):
+            tg = n.targets
+        elif isinstance(n, ast.NamedExpr):
+            tg = [n.target]
+        for t in tg:
+            if any(isinstance(x, ast.Name) and x.id == name and isinstance(x.ctx, (ast.Store, ast.Del)) for x in ast.walk(t)):
+                out.append(n)
+    return out
+
+
+def module_level_state(tree: ast.Module) -> List[str]:
+    """Module-level containers (dict / list / set displays or constructors) that code of the file writes to."""
+    out = []
+    for st in tree.body:
+        if isinstance(st, (ast.Assign, ast.AnnAssign)) and st.value is not None:
+            v = st.value
+            tg = st.targets[0] if isinstance(st, ast.Assign) else st.target
+            if not isinstance(tg, ast.Name):
+                continue
+            if not (isinstance(v, (ast.Dict, ast.List, ast.Set)) or (isinstance(v, ast.Call) and isinstance(v.func, ast.Name) and v.func.id in ("dict", "list", "set", "defaultdict", "OrderedDict"))):
+                continue
+            nm = tg.id
+            written = any(
+                (isinstance(x, ast.Subscript) and isinstance(x.ctx, (ast.Store, ast.Del)) and isinstance(x.value, ast.Name) and x.value.id == nm)
+                or (isinstance(x, ast.Call) and isinstance(x.func, ast.Attribute) and isinstance(x.func.value, ast.Name) and x.func.value.id == nm and x.func.attr in ("append", "extend", "insert", "update", "pop", "popitem", "setdefault", "clear", "add", "remove", "discard"))
+                or (isinstance(x, ast.Global) and nm in x.names)
+                for x in ast.walk(tree))
+            if written:
+                out.append(nm)
+    return out
